@@ -410,6 +410,9 @@ func runC05(c *Ctx) {
 	// ---------- R9 Client.RemoveAll ----------
 	checkRemoveAllComposite(c, "R9")
 
+	// ---------- R10 Client.Glob ----------
+	checkGlobComposite(c, "R10")
+
 	// ---------- R4 toLocalPath ----------
 	if tl := p.Func("(*Server).toLocalPath"); tl == nil {
 		c.missing("R4", "(*Server).toLocalPath")
@@ -1130,4 +1133,92 @@ func checkRemoveAllComposite(c *Ctx, rule string) {
 		}
 		c.check(used, rule, "RemoveAll examines the error of "+nm+map[bool]string{true: " (in the loop)", false: ""}[inLoop(call)], p.Pos(call.Pos()), "tested or returned", "the error of "+nm+" is ignored: RemoveAll goes on (and may report success) after a failed step")
 	})
+}
+
+// checkGlobComposite (C05.R10): Client.Glob follows path/filepath.Glob.  Decided: the pattern is validated before
+// anything else (so that a malformed pattern is ErrBadPattern whatever the directories contain, as the doc comment
+// promises), and a pattern without metacharacters that exists is returned as given (not rebuilt from its directory
+// and the entry's base name, which turns "dir/" into "dir/dir").
+func checkGlobComposite(c *Ctx, rule string) {
+	p := c.P
+	fn := p.Func("(*Client).Glob")
+	if fn == nil {
+		c.missing(rule, "(*Client).Glob")
+		return
+	}
+	c.looked("(*Client).Glob")
+	pat := fn.Params[1]
+	var validate ssa.Instruction
+	eachInstr(fn, func(in ssa.Instruction) {
+		call, ok := in.(*ssa.Call)
+		if !ok {
+			return
+		}
+		if nm := calleeName(&call.Call); nm != "Match" {
+			return
+		}
+		if len(call.Call.Args) == 2 && call.Call.Args[0] == ssa.Value(pat) {
+			if s, ok := constString(call.Call.Args[1]); ok && s == "" {
+				validate = in
+			}
+		}
+	})
+	upfront := validate != nil
+	if upfront {
+		eachInstr(fn, func(in ssa.Instruction) {
+			cc := callOf(in)
+			if cc == nil || in == validate {
+				return
+			}
+			switch calleeName(cc) {
+			case "Lstat", "Stat", "glob", "Glob", "ReadDir":
+				if !dominates(validate, in) {
+					upfront = false
+				}
+			}
+		})
+		// its error is returned
+		ret := false
+		for _, rl := range returnLeaves(fn, 1) {
+			for _, l := range leavesOf(rl.v) {
+				if l.Kind == leafCallResult && l.CallIn == validate {
+					ret = true
+				}
+			}
+		}
+		upfront = upfront && ret
+	}
+	c.check(upfront, rule, "Glob validates the pattern first", p.Pos(fn.Pos()), "Match(pattern, \"\") before any request, its error returned",
+		"Glob does not validate the pattern up front: a malformed pattern such as \"x/[\" yields nil, nil unless some directory entry happens to be matched against it (the doc comment and filepath.Glob say ErrBadPattern)")
+	verbatim, rebuilt := false, false
+	eachInstr(fn, func(in ssa.Instruction) {
+		if st, ok := in.(*ssa.Store); ok && st.Val == ssa.Value(pat) {
+			if _, isIdx := st.Addr.(*ssa.IndexAddr); isIdx {
+				verbatim = true
+			}
+		}
+		if call, ok := in.(*ssa.Call); ok && calleeName(&call.Call) == "Join" {
+			for _, a := range call.Call.Args {
+				for _, l := range leavesOf(a) {
+					if l.Kind == leafCallResult && calleeName(l.Call) == "Name" {
+						rebuilt = true
+					}
+				}
+			}
+			// variadic: the slice argument holds the call result
+			for _, r := range fn.Blocks {
+				_ = r
+			}
+		}
+	})
+	// Join(dir, file.Name()) stores file.Name() into the variadic array
+	eachInstr(fn, func(in ssa.Instruction) {
+		if st, ok := in.(*ssa.Store); ok {
+			if call, ok := st.Val.(*ssa.Call); ok && call.Call.IsInvoke() && call.Call.Method.Name() == "Name" {
+				rebuilt = true
+			}
+		}
+	})
+	c.check(verbatim && !rebuilt, rule, "Glob returns an existing literal name as given", p.Pos(fn.Pos()), "[]string{pattern}",
+		"for a pattern without metacharacters Glob returns Join(dir, Lstat(pattern).Name()) instead of the pattern: \"dir/\" comes back as \"dir/dir\", which does not exist")
 }
